@@ -25,6 +25,12 @@ VOCAB = [
     'Lot 4(38.12)', 'Lot 5 [40.00]', 'N/2 of Lot 1', 'L1', 'Lt. 2',
     '(40.00)', '[39.5]', '(', ')', '½', '¼', '1/4', '4', '2', '12', '100',
     '1000', 'N', 'W', 'S', 'E',
+    # spelled-out and odd aliquot / lot spellings
+    'Northeast', 'North East', 'South-West', 'Southwest', 'northwest',
+    'Southeast Quarter', 'South Half', 'East Half', 'W½', 'E/2', 'S 1/2',
+    'West Half of the', 'N/2 of the', 'Quarter', 'Half', 'NE Quarter', 'N.E.',
+    'n e', 'SW1/4', 'Southwest 1/4', 'E/2W/2', 'N/2NE/4NE/4', 'NE/4NE/4',
+    'Lots 1 thru 4', 'Lt 3', 'L. 4', 'Lts 1-3', 'L1 - L3', 'Lot 2 and 3',
     # warnings
     'less and except', 'wellbore', 'insofar as', 'including', 'limited to',
     'from the surface to the base of', 'depths', 'the Johnston #1 well',
